@@ -607,6 +607,19 @@ def handleLru (args : List String) : String :=
     | _, _ => "bad-op"
   | _ => "bad-op"
 
+/-- `tblenc c:k:d c:k:d …`: the bytes 980 … of a zeroed header block after `Header.putTable` of these rows, as hex -/
+def handleTblEnc (ws : List String) : String :=
+  let rows : Option (List Header.TRow) := ws.mapM fun w =>
+    match w.splitOn ":" with
+    | [a, b, c] => (a.toInt?.bind fun x => b.toInt?.bind fun y => c.toInt?.map fun z => (x, y, z))
+    | _ => none
+  match rows with
+  | none => "bad-op"
+  | some rs =>
+    let h := Header.putTable (fun _ => 0) rs
+    let hex (n : Nat) : String := String.mk [Nat.digitChar (n / 16), Nat.digitChar (n % 16)]
+    String.join ((List.range (12 * rs.length)).map fun i => hex (h (Header.tableAt + i)))
+
 def handle (line : String) : String :=
   if line.startsWith "hist " then handleHist (line.drop 5).toString else
   if line.startsWith "hhist " then handleHHist (line.drop 6).toString else
@@ -634,6 +647,7 @@ def handle (line : String) : String :=
   | "hdrio" :: rest => handleHdrIO rest
   | "hashfeed" :: rest => handleHashFeed rest
   | "lru" :: rest => handleLru rest
+  | "tblenc" :: rest => handleTblEnc rest
   | ["ping"] => "pong"
   | _ => "bad-op"
 
